@@ -292,6 +292,183 @@ static void runTypedNoBlocks(const Scenario &sc, std::vector<int> &leaf)
   logEv('R', cx.c, 0, 0, written);
 }
 
+
+// ---------------------------------------------------------------------------------------------------------------
+// Macro scenarios (spec/tasking/ParallelForHuge.tla): counts around 2^31 / 2^32, far too many to record per index.
+// The loop body increments a one-byte counter per index (plain memory, saturating at 255; each index is written by
+// exactly one body in correct code) in a byte array of G + N + G bytes (guard bytes before and after the range; an
+// index that would even fall outside the guards is counted instead of written).  After the call returned, the calling
+// thread has the array scanned (plain std::threads) and reports the SUMMARY of the loop: how many indices of [0,N)
+// were visited exactly once / never / more than once, how many cells outside the range were touched, the smallest and
+// the largest visited index, the number of block invocations larger than the block size and of empty ones.  All
+// counts are written as two limbs <<hi, lo>> = hi * 65536 + lo (TLC integers are 32-bit).  No verdict here: the
+// summary is judged by TLC (ParallelForHugeValidate).
+#include <sys/mman.h>
+#include <cstdint>
+#include <cstring>
+
+struct HugeCtx
+{
+  uint8_t *buf;
+  uint64_t total, G, N, B;
+  std::atomic<uint64_t> farOut, oversize, empty;
+};
+
+static inline void hugeTouch(HugeCtx &h, uint64_t idx)   // idx: the index as a 64-bit two's complement value
+{
+  const uint64_t off = idx + h.G;
+  if (off < h.total) { uint8_t &c = h.buf[off]; if (c != 255) ++c; }
+  else h.farOut++;
+}
+
+struct ByteView   // a container of N one-byte elements inside the guarded array
+{
+  uint8_t *b, *e;
+  uint8_t *begin() const { return b; }
+  uint8_t *end() const { return e; }
+};
+
+template <typename IDX, int BS>
+static void hugeBlocks(HugeCtx &h)
+{
+  parallel_in_blocks_of<BS>((IDX)h.N, [&](IDX b, IDX e) {
+    if (!(b < e)) { h.empty++; return; }
+    uint64_t len = (uint64_t)(long long)e - (uint64_t)(long long)b;
+    if (len > h.B) { h.oversize++; if (len > 2 * h.B + 64) len = 2 * h.B + 64; }
+    const uint64_t b0 = (uint64_t)(long long)b;
+    for (uint64_t k = 0; k < len; ++k) hugeTouch(h, b0 + k);
+  });
+}
+
+template <typename IDX>
+static bool hugeCall(HugeCtx &h, const std::string &api)
+{
+  uint8_t *base = h.buf + h.G;
+  if (api == "none") {
+    // control: no loop at all (the scan must then report N indices as never visited)
+  } else if (api == "for") {
+    parallel_for((IDX)h.N, [&](IDX i) { hugeTouch(h, (uint64_t)(long long)i); });
+  } else if (api == "foreach_it") {
+    parallel_foreach(base, base + h.N, [&](uint8_t &x) { hugeTouch(h, (uint64_t)((uintptr_t)&x - (uintptr_t)base)); });
+  } else if (api == "foreach") {
+    ByteView v; v.b = base; v.e = base + h.N;
+    parallel_foreach(v, [&](uint8_t &x) { hugeTouch(h, (uint64_t)((uintptr_t)&x - (uintptr_t)base)); });
+  } else if (api == "blocks") {
+    if (h.B == 1) hugeBlocks<IDX, 1>(h);
+    else if (h.B == 3) hugeBlocks<IDX, 3>(h);
+    else if (h.B == 65536) hugeBlocks<IDX, 65536>(h);
+    else return false;
+  } else return false;
+  return true;
+}
+
+static Json limbs(uint64_t v)
+{
+  Json a = Json::array();
+  a.push((long long)(v >> 16)); a.push((long long)(v & 0xffffu));
+  return a;
+}
+
+struct HugeScan { uint64_t once, never, multi, outside, mn, mx; bool any; };
+
+static void hugeScanPart(const HugeCtx &h, uint64_t lo, uint64_t hi, HugeScan &r)
+{
+  r.once = r.never = r.multi = r.outside = 0; r.any = false; r.mn = r.mx = 0;
+  const uint64_t rb = h.G, re = h.G + h.N;
+  uint64_t off = lo;
+  while (off < hi) {
+    // fast path: eight cells of the range at once that are all 1 or all 0
+    if (off >= rb && off + 8 <= re && off + 8 <= hi) {
+      uint64_t w; memcpy(&w, h.buf + off, 8);
+      if (w == 0x0101010101010101ull) { if (!r.any) { r.any = true; r.mn = off - rb; } r.mx = off - rb + 7; r.once += 8; off += 8; continue; }
+      if (w == 0) { r.never += 8; off += 8; continue; }
+    }
+    const uint8_t c = h.buf[off];
+    if (off >= rb && off < re) {
+      if (c == 1) r.once++; else if (c == 0) r.never++; else r.multi++;
+      if (c) { if (!r.any) { r.any = true; r.mn = off - rb; } r.mx = off - rb; }
+    } else if (c) r.outside++;
+    ++off;
+  }
+}
+
+static uint8_t *g_hugeBuf = nullptr;
+static uint64_t g_hugeCap = 0;
+
+static void runHuge(const Json &j, int scanThreads)
+{
+  HugeCtx h;
+  h.N = ((uint64_t)j["N"][0].num() << 16) + (uint64_t)j["N"][1].num();
+  h.G = (uint64_t)j["G"].num();
+  h.B = (uint64_t)j["B"].num();
+  h.total = h.N + 2 * h.G;
+  h.farOut = 0; h.oversize = 0; h.empty = 0;
+  Json r = Json::object();
+  r.set("id", j["id"]);
+  r.set("events", Json::array());
+  Json hs = Json::object();
+  if (g_hugeCap < h.total) {
+    if (g_hugeBuf) munmap(g_hugeBuf, g_hugeCap);
+    g_hugeBuf = nullptr; g_hugeCap = 0;
+    void *p = mmap(nullptr, h.total, PROT_READ | PROT_WRITE, MAP_PRIVATE | MAP_ANONYMOUS | MAP_NORESERVE, -1, 0);
+    if (p != MAP_FAILED) { g_hugeBuf = (uint8_t *)p; g_hugeCap = h.total; }
+  }
+  if (!g_hugeBuf) {
+    hs.set("allocated", false);
+    r.set("huge", hs);
+    g_out << r.dump() << "\n"; g_out.flush();
+    return;
+  }
+  h.buf = g_hugeBuf;
+  const int T = scanThreads < 1 ? 1 : scanThreads;
+  const uint64_t chunk = ((h.total + T - 1) / T + 63) & ~(uint64_t)63;
+  {
+    std::vector<std::thread> th;
+    for (int t = 0; t < T; ++t)
+      th.emplace_back([&, t] { uint64_t lo = std::min(h.total, chunk * t), hi = std::min(h.total, chunk * (t + 1)); if (hi > lo) memset(h.buf + lo, 0, hi - lo); });
+    for (auto &x : th) x.join();
+  }
+  const std::string api = j["api"].str(), t = j["type"].str();
+  auto t0 = std::chrono::steady_clock::now();
+  bool ran;
+  if (t == "i32") ran = hugeCall<int>(h, api);
+  else if (t == "u32") ran = hugeCall<unsigned>(h, api);
+  else if (t == "i64") ran = hugeCall<long>(h, api);
+  else if (t == "ll") ran = hugeCall<long long>(h, api);
+  else if (t == "ull") ran = hugeCall<unsigned long long>(h, api);
+  else if (t == "sz") ran = hugeCall<size_t>(h, api);
+  else ran = false;
+  auto t1 = std::chrono::steady_clock::now();
+  std::vector<HugeScan> parts(T);
+  {
+    std::vector<std::thread> th;
+    for (int k = 0; k < T; ++k)
+      th.emplace_back([&, k] { uint64_t lo = std::min(h.total, chunk * k), hi = std::min(h.total, chunk * (k + 1)); hugeScanPart(h, lo, hi, parts[k]); });
+    for (auto &x : th) x.join();
+  }
+  auto t2 = std::chrono::steady_clock::now();
+  HugeScan s; s.once = s.never = s.multi = s.outside = 0; s.any = false; s.mn = s.mx = 0;
+  for (int k = 0; k < T; ++k) {
+    s.once += parts[k].once; s.never += parts[k].never; s.multi += parts[k].multi; s.outside += parts[k].outside;
+    if (parts[k].any) { if (!s.any) { s.any = true; s.mn = parts[k].mn; } s.mx = parts[k].mx; }
+  }
+  hs.set("allocated", true).set("ran", ran).set("bytes", limbs(h.total)).set("cells_scanned", limbs(s.once + s.never + s.multi));
+  hs.set("once", limbs(s.once)).set("never", limbs(s.never)).set("multi", limbs(s.multi)).set("outside", limbs(s.outside + h.farOut.load()));
+  if (s.any) { hs.set("min", limbs(s.mn)); hs.set("max", limbs(s.mx)); }
+  else { Json none = Json::array(); none.push(-1); none.push(0); hs.set("min", none); hs.set("max", none); }   // None of the spec: no index
+  hs.set("oversize", limbs(h.oversize.load())).set("empty", limbs(h.empty.load()));
+  hs.set("loop_ms", (long long)std::chrono::duration_cast<std::chrono::milliseconds>(t1 - t0).count());
+  hs.set("scan_ms", (long long)std::chrono::duration_cast<std::chrono::milliseconds>(t2 - t1).count());
+  r.set("huge", hs);
+  g_out << r.dump() << "\n"; g_out.flush();
+}
+
+static void freeHuge()
+{
+  if (g_hugeBuf) munmap(g_hugeBuf, g_hugeCap);
+  g_hugeBuf = nullptr; g_hugeCap = 0;
+}
+
 int main(int argc, char **argv)
 {
   std::string in, out;
@@ -314,6 +491,8 @@ int main(int argc, char **argv)
   while (std::getline(f, line)) {
     if (line.empty()) continue;
     Json j = vj::parse(line);
+    if (j.has("mode") && j["mode"].str() == "huge") { runHuge(j, 16); continue; }
+    freeHuge();
     Scenario sc;
     sc.api = j["api"].str();
     sc.type = j["type"].str();
@@ -337,7 +516,9 @@ int main(int argc, char **argv)
     const long myGen = gen;
     long prefill = j.has("prefill") ? j["prefill"].num() : 0;
     if (prefill > 0) {
-      int nb = std::max(1, threads - 1);
+      // the blockers keep the WORKER threads from draining the pipe; with a single thread there is no worker, and a
+      // blocker picked up by the caller itself while it waits for its loop would wait for the caller for ever
+      int nb = threads - 1;
       for (int k = 0; k < nb; ++k)
         schedule([myGen] { blockers++; while (releasedGen.load() < myGen) std::this_thread::yield(); });
       auto t0 = std::chrono::steady_clock::now();
@@ -427,6 +608,7 @@ int main(int argc, char **argv)
     }
     writeResult(j["id"], collect(leaf), nullptr);
   }
+  freeHuge();
   if (getenv("VERIF_PF_DEBUG")) fprintf(stderr, "hook point calls: %ld\n", g_pointCalls.load());
   g_out.flush();
   _exit(0);   // no static destructors: the tasking system may still hold queued helper tasks
